@@ -365,6 +365,14 @@ def run(ctx):
                    {"op": "refresh", "token": ["refresh", 0], "cred": ["c1", "s1"], "scope": None},
                    {"op": "introspect", "token": ["access", 0], "cred": ["c1", "s1"], "hint": None}]
             check_seq(ctx, ops, "golden-revoke-twice")
+    # revocation of a grant whose access token has already expired (the refresh token lives on for 864000 s)
+    for dt in (3601, 863999, 864000, 864001, 2000000):
+        for by, hint in (("refresh", "refresh_token"), ("refresh", None), ("access", None), ("access", "access_token")):
+            ops = [issue, {"op": "tick", "dt": dt}, {"op": "revoke", "token": [by, 0], "cred": ["c1", "s1"], "hint": hint},
+                   {"op": "introspect", "token": ["refresh", 0], "cred": ["c1", "s1"], "hint": "refresh_token"},
+                   {"op": "refresh", "token": ["refresh", 0], "cred": ["c1", "s1"], "scope": None},
+                   {"op": "access", "token": ["access", 0], "required": "a"}]
+            check_seq(ctx, ops, "golden-revoke-expired")
     for cred in CREDS:
         for sc in (None, "a", "a b c", "b"):
             ops = [issue, {"op": "refresh", "token": ["refresh", 0], "cred": cred, "scope": sc},
